@@ -150,7 +150,7 @@ theorem oneHotInv_binarize (cs : List Val) (hnd : cs.Nodup) (v : Val) (h : v ∈
     rcases h with rfl | rfl
     · simp [oneHotInv, binarize]
     · have : List.idxOf v [c0, v] = 1 := by
-        simp [List.idxOf_cons, hne]
+        simp [hne]
       simp [oneHotInv, binarize, this]; norm_num
   | c0 :: c1 :: c2 :: rest, _, h, hlt, hget =>
     have hn : ¬ (c0 :: c1 :: c2 :: rest).length = 1 := by simp
@@ -287,7 +287,7 @@ theorem normalize_cat_cell (n k : Nat) (hk : k < n) :
   · subst h1
     have : k = 0 := by omega
     subst this
-    simp [roundHalfEven_intCast]
+    simp
     exact roundHalfEven_intCast 0
   · have hne : ((((n : Int) - 1 : Int)) : Rat) ≠ 0 := by
       have : (n : Int) - 1 ≠ 0 := by omega
